@@ -249,6 +249,25 @@ func checkC11(c *Ctx) {
 			})
 			gr := evalGuard(c.P, setiv, atoms, spec, sinks)
 			c.Check(gr.OK, "G-C11-iv", fname(setiv), "rejects IVs that are not 16 bytes", gr.Why, gr.Why, gr.Pos)
+			// ... and a successful SetIV has installed the IV: with the edges into the store(s) to the package variable
+			// removed no nil-error return is reachable (a `IV := …` that shadows the package variable stores nothing)
+			cut := map[edge]bool{}
+			inEntry := false
+			for _, sk := range sinks {
+				if sk.Block() == setiv.Blocks[0] {
+					inEntry = true
+				}
+				for _, p := range sk.Block().Preds {
+					cut[edge{p, sk.Block()}] = true
+				}
+			}
+			reachable := true
+			if len(sinks) > 0 && !inEntry {
+				reachable, _ = canReachSuccess(setiv.Blocks[0], nil, successExits(setiv, spec), cut)
+			} else if inEntry {
+				reachable = false
+			}
+			c.Check(len(sinks) > 0 && !reachable, "G-C11-iv", fname(setiv), "a successful SetIV has assigned the package IV", "", "SetIV can return nil without having stored anything in the package variable IV (for instance into a local that shadows it): the helpers keep using the previous IV", setiv.Pos())
 		} else {
 			c.Missing("G-C11-iv", "sm4.SetIV", "function", "not found")
 		}
